@@ -1239,7 +1239,10 @@ int EGLPNUM_TYPENAME_ILLwrite_mps (
 		EGLPNUM_TYPENAME_ILLprint_report (lp, "RANGES\n");
 		for (i = 0; i < lp->nrows; i++)
 		{
-			if ((lprows->rowcnt[i] != 0) && EGLPNUM_TYPENAME_EGlpNumIsNeqqZero (lp->rangeval[i]))
+			/* a ranged row is written as a G row: the RANGES record is what makes
+			 * it ranged again, also when its range is 0 */
+			if ((lprows->rowcnt[i] != 0) &&
+					(lp->sense[i] == 'R' || EGLPNUM_TYPENAME_EGlpNumIsNeqqZero (lp->rangeval[i])))
 			{
 				str = EGLPNUM_TYPENAME_EGlpNumGetStr(lp->rangeval[i]);
 				EGLPNUM_TYPENAME_ILLprint_report (lp, " RANGE    %s    %s\n", rownames[i], str);
